@@ -27,11 +27,12 @@ def cached(name, key, fn, use_cache=True):
         json.dump(r, open(p, "w"))
     return r
 
-def coef_engine(method, tier):
+def coef_engine(method, tier, kind="order"):
     from coef import orderconds
     src = os.path.join(REPO, orderconds.FILES[method])
-    key = _sha(src, os.path.join(ROOT, "coef", "orderconds.py"), os.path.join(ROOT, "vx", "gen.py"))
-    return cached("coef_" + method, key, lambda: orderconds.run(method, REPO), use_cache=(tier != "thorough"))
+    key = _sha(src, os.path.join(ROOT, "coef", "orderconds.py"), os.path.join(ROOT, "coef", "symstep.py"), os.path.join(ROOT, "vx", "gen.py"), os.path.join(ROOT, "vx", "core.py"))
+    name = ("coef_" if kind == "order" else "coef_dense_") + method
+    return cached(name, key, lambda: orderconds.run(method, REPO, kind=kind), use_cache=(tier != "thorough"))
 
 def run_for(prop, tier, seed):
     jobs = []
@@ -45,6 +46,8 @@ def run_for(prop, tier, seed):
         try:
             if e["kind"] == "coef":
                 return coef_engine(e["method"], tier)
+            if e["kind"] == "coef_dense":
+                return coef_engine(e["method"], tier, kind="dense")
             if e["kind"] == "kani_lemmas":
                 from . import kani_engine
                 return kani_engine.lemma_base(tier)
